@@ -55,6 +55,13 @@ CHECKS.update(
         note="Rule table in pvlib/harness/c06.py is the oracle (transcribed from docs/user/nonmult.rst and the property statement). Exact arithmetic; real exp/log accuracy outside; scales assumed > 0.",
         design="4/C06",
     ),
+    C11=dict(
+        text="Conversions under contexts in the real registry on symbolic magnitudes and parameters: for the bundled contexts the result is proved equal to an independent evaluation of the equation text "
+        "in default_en.txt (own parser + quantity algebra) along the declared chain; for generated contexts all activation forms (name, alias, object, enable, with, per-call, decorator) and stacks up to 3 "
+        "are proved equal to the reference model (last enabled wins, any shortest chain, parameter sources); find_shortest_path/find_connected_nodes against BFS on all directed graphs with <= 4 nodes.",
+        note="Gaussian/ESU constants are float-valued (** 0.5): only reachability, linearity and inverse consistency within 1e-9. Tie-breaking among equally short chains unconstrained.",
+        design="4/C11",
+    ),
     C12=dict(
         text="Bounded model checking of the real context machinery against a reference stack model: every operation sequence up to length 3 (thorough: all of length 3 and sampled length 4) over "
         "{enable(c[,n=v]), disable(1|all), with c:, with c: raise, activation that fails part-way, define} is executed on a freshly generated registry with symbolic rule coefficients, parameters and "
